@@ -15,10 +15,10 @@ LEVEL_TEXT = ("TLA+ reference definitions written from the statement (maximal de
 LEVEL_NOTE = ("exhaustive over: all strings of length <= 7 (quick 6) over {a, b, delimiter(s)} for split (both forms) and tokenize, all pairs "
               "of strings of length <= 5 (quick 4) over {a, b} for prefixes, all URLs from <= 3 (quick 2) parameters over 3 types x 3 file "
               "names x 2 names x 3 values, all paths of length <= 7 (quick 6) over {a, '.', '/'}, all argument vectors of length <= 5 "
-              "(quick 4) over 3 symbols with all 64 parsers, 9 mantissas x every decade 1e-15..1e21; longer inputs only by seeded random "
+              "(quick 4) over 3 symbols with all 64 parsers, 13 mantissas x every decade 1e-15..1e21 x both signs and +/-0 for prettyDouble, 212 counts from 0 to SIZE_MAX for prettyNumber; longer inputs only by seeded random "
               "sampling.  Not covered (not in the statement): split(keepDelim=true), lowerCase/upperCase, FileName::operator-/canonical, "
               "whether operator+ keeps or collapses a separator run at the joint (judged up to collapsing), a const char* right operand of operator+ "
-              "(ambiguous between the two overloads, does not compile), zero / negative / out-of-range numbers, Windows separators.  Trusted: TLC, the "
+              "(ambiguous between the two overloads, does not compile), magnitudes outside 1e-15..1e21, NaN / infinity, Windows separators.  Trusted: TLC, the "
               "driver's projection of printed text to (decimals, mantissa, suffix), strtod for m*10^e, g++/libstdc++")
 TECHNIQUE = ("TLA+ functional specifications with laws checked by TLC (ASSUME over bounded domains) + exhaustive case replay on the real "
              "code; TLC validation of recorded observations against law predicates; ADT specification with state-graph histories and "
@@ -144,6 +144,12 @@ def validate_lines(chk, exe, lines, tag, timeout=900):
     if len(verdicts) != len(lines):
         raise tla.InfraError("C18Validate returned %d verdicts for %d lines" % (len(verdicts), len(lines)))
     rejected = 0
+    judged = chk.cov.setdefault("si_judged", {})
+    for v in verdicts:
+        a_ = lines[v["id"]]["a"]
+        if a_.startswith("Pretty") and v["id"] not in died:
+            k_ = "%s(%s)" % (a_, v.get("cls") or "")          # class computed by TLC: suffix range of |x| and sign
+            judged[k_] = judged.get(k_, 0) + 1
     for v in verdicts:
         if v["ok"] or v["id"] in died:
             continue
@@ -214,13 +220,16 @@ def random_lines(rnd, n):
             if s == "" and rnd.random() < 0.5:
                 arg["dflt"] = True                       # default-constructed left operand
         lines.append({"a": op, "arg": arg})
-        # SI printing: m * 10^e inside 1e-15 .. 1e21
-        m = rnd.randint(1, 99999)
+        # SI printing: +/- m * 10^e with magnitude inside 1e-15 .. 1e21, sometimes a zero; counts over the whole 64-bit range
+        m = rnd.choice([rnd.randint(1, 99999), rnd.randint(1, 99999999), rnd.choice([99994, 99995, 99996, 1, 10, 999, 1000])])
         nd = len(str(m))
         dec = rnd.randint(-15, 20)
-        lines.append({"a": "PrettyDouble", "arg": {"m": m, "e": dec - nd + 1}})
-        dec = rnd.randint(nd - 1, 18)
-        lines.append({"a": "PrettyNumber", "arg": {"m": m, "e": dec - nd + 1}})
+        if rnd.random() < 0.03:
+            m, nd, dec = 0, 1, 0
+        lines.append({"a": "PrettyDouble", "arg": {"neg": rnd.random() < 0.5, "m": m, "e": dec - nd + 1}})
+        v = rnd.choice([rnd.getrandbits(rnd.randint(1, 64)), 10 ** rnd.randint(0, 19) + rnd.randint(-1, 1), rnd.randint(0, 2000)])
+        v = max(0, min(v, 2 ** 64 - 1))
+        lines.append({"a": "PrettyNumber", "arg": {"limbs": [v // 10 ** 18, v // 10 ** 9 % 10 ** 9, v % 10 ** 9]}})
     for ln in lines:
         ln["arg"] = arg_chars(ln["arg"])
     return lines
@@ -255,7 +264,9 @@ def run(chk, replay=None):
         "FileName::operator+ (FileName and std::string overloads) follows one rule: an empty left name (\"\", default-constructed, separators "
         "only) returns the right operand, otherwise this/other; FileName(path()) + base() must name the file again (equality up to "
         "collapsing separator runs and trailing separators; a leading separator is significant)",
-        "SI printing: mantissa in [1, 1000] with both ends admitted, one unit of the last printed digit plus 2^-18 relative tolerance",
+        "SI printing: |mantissa| in [1, 1000] with both ends admitted, one unit of the last printed digit plus 2^-18 relative tolerance; the printed "
+        "sign is the sign of a non-zero input; zero prints a zero mantissa (its sign and suffix are not constrained); 64-bit counts are "
+        "judged on their nine leading digits",
         "ArgumentList parsers are content-keyed (symbol -> count, clipped to the remaining arguments); recorded executions use 6 symbols, "
         "vectors up to 16 arguments",
     ]
@@ -318,6 +329,14 @@ def run(chk, replay=None):
     law_lines = [{"a": c["a"], "arg": arg_chars(c["arg"])} for c in all_cases if c.get("exp") == NOEXP]
     validate_lines(chk, exe, law_lines, "c18-law")
     chk.cov["law_specified_inputs"] = len(law_lines)
+    # vacuity: every (suffix range, sign) pair of prettyDouble, every suffix range of prettyNumber and zero was judged
+    bands = ["f", "p", "n", "u", "m", "unit", "k", "M", "G", "T", "P", "E"]
+    need = ["PrettyDouble(band=%s%s)" % (b, sg) for b in bands for sg in ("", ",neg")] + ["PrettyDouble(zero)", "PrettyNumber(zero)"] \
+        + ["PrettyNumber(band=%s)" % b for b in bands[5:]]
+    atleast = {"PrettyDouble(zero)": 2, "PrettyNumber(zero)": 1}          # +0 and -0; the count 0
+    few = {k: chk.cov["si_judged"].get(k, 0) for k in need if chk.cov["si_judged"].get(k, 0) < atleast.get(k, 6)}
+    if few:
+        raise tla.InfraError("vacuity guard: SI classes judged too rarely: %s" % few)
     # seeded random long inputs
     rl = random_lines(rnd, 150 if quick else 4000)
     validate_lines(chk, exe, rl, "c18-random")
